@@ -133,8 +133,30 @@ func (t *T) json(ws *lib.Rng) string {
 	return sb.String()
 }
 
-// senText renders the tree in SEN style: no commas, bare member names where they are plain words.
-func (t *T) senText(sb *strings.Builder) {
+// senString writes a string for SEN: between single quotes when that is asked for and possible
+// without an escape (no single quote, backslash or control character inside; a double quote inside
+// is fine), otherwise as a JSON string (a single quote inside stands as it is).
+func senString(sb *strings.Builder, s string, single bool) {
+	if single {
+		ok := true
+		for i := 0; i < len(s); i++ {
+			if s[i] == '\'' || s[i] == '\\' || s[i] < 0x20 {
+				ok = false
+			}
+		}
+		if ok {
+			sb.WriteByte('\'')
+			sb.WriteString(s)
+			sb.WriteByte('\'')
+			return
+		}
+	}
+	jsonString(sb, s)
+}
+
+// senText renders the tree in SEN style: no commas, bare member names where they are plain words;
+// single: strings and the other member names between single quotes where possible.
+func (t *T) senText(sb *strings.Builder, single bool) {
 	switch t.K {
 	case 'a':
 		sb.WriteByte('[')
@@ -142,7 +164,7 @@ func (t *T) senText(sb *strings.Builder) {
 			if i > 0 {
 				sb.WriteByte(' ')
 			}
-			k.senText(sb)
+			k.senText(sb, single)
 		}
 		sb.WriteByte(']')
 	case 'o':
@@ -151,15 +173,17 @@ func (t *T) senText(sb *strings.Builder) {
 			if i > 0 {
 				sb.WriteByte(' ')
 			}
-			if plainWord(t.Keys[i]) {
+			if plainWord(t.Keys[i]) && !single {
 				sb.WriteString(t.Keys[i])
 			} else {
-				jsonString(sb, t.Keys[i])
+				senString(sb, t.Keys[i], single)
 			}
 			sb.WriteByte(':')
-			k.senText(sb)
+			k.senText(sb, single)
 		}
 		sb.WriteByte('}')
+	case 's':
+		senString(sb, t.S, single)
 	default:
 		t.writeJSON(sb, nil)
 	}
